@@ -489,6 +489,11 @@ fn global_pool<T: Clone + Send + Sync>(
     out_shape.resize(input.ndim(), 1);
 
     let n_elem = input.shape().iter().skip(2).product();
+    if n_elem == 0 {
+        // There is nothing to reduce, and iterating over the (empty) lanes
+        // below would leave the output uninitialized.
+        return Err(OpError::InvalidValue("Spatial dims must be non-empty"));
+    }
     let input = input.reshaped_in(pool, [batch, chan, n_elem]);
 
     let n_out = batch * chan;
